@@ -222,5 +222,7 @@ EmitGhostEdge ==
           THEN PrintT(<<"B", ToJson([steps |-> hist', obs |-> Obs])>>) ELSE TRUE
 \* the same, on the part of the graph where only views fill the cache (no refused commits)
 EmitGhostEdgeViewsOnly == res' \notin {"refused", "noprev"} /\ EmitGhostEdge
+\* height-3 pass: transitions other than refused commits (those are covered at height 2)
+EmitDeepEdge == res' \notin {"refused", "noprev"} /\ EmitEdge
 HBound == Len(hist) <= 40
 =============================================================================
